@@ -194,12 +194,12 @@ class _MCQuad(torch.autograd.Function):
                 if grad_enabled:
                     fout = function_wrap(ffcn, ctx.fparam_sep, nfparams, x, ftensor_params)
                     pout = function_wrap(log_pfcn, ctx.pparam_sep, npparams, x, ptensor_params)
-                # if graph is not constructed, then fptensor_params in this
-                # function *is* fptensor_params in the outside, so we can
-                # just use fparams and pparams from the outside
+                # if graph is not constructed, then fptensor_params are detached
+                # copies (a parameter may have been computed from another one, so
+                # the derivatives must be taken w.r.t. independent tensors)
                 else:
-                    fout = ffcn(x, *fparams)
-                    pout = log_pfcn(x, *pparams)
+                    fout = function_wrap(ffcn, ctx.fparam_sep, nfparams, x, ftensor_params)
+                    pout = function_wrap(log_pfcn, ctx.pparam_sep, npparams, x, ptensor_params)
             # derivative of fparams
             dLdthetaf = []
             if len(ftensor_params) > 0 and not fout.requires_grad:
@@ -233,7 +233,7 @@ class _MCQuad(torch.autograd.Function):
         if grad_enabled:
             fptensor_params_copy = [y.clone().requires_grad_() for y in fptensor_params]
         else:
-            fptensor_params_copy = fptensor_params
+            fptensor_params_copy = [y.detach().requires_grad_() for y in fptensor_params]
 
         aug_epfs = _mcquad(aug_function, log_pfcn,
                            x0=xsamples[0],  # unused because xsamples is set
